@@ -93,6 +93,116 @@ func c20Fee(rc *engine.RunCtx, res *engine.Result, report func(*engine.Violation
 		chainMenu = []string{"", "0.000000000000000001", "0.333333333333333333", "2.5"}
 	}
 	accepted, rejected := 0, 0
+	// point evaluates one (node price vector, chain price vector) on the given checker, in the context
+	// whose stored parameters hold the chain vector, for every gas of gasMenu, fee set and mode
+	point := func(chk opchildante.MempoolFeeChecker, cctx sdk.Context, node, chain [2]string, gasMenu []uint64, tag string) {
+		nodeDC := decCoins(node)
+		// CombinedMinGasPrices = pointwise max, sorted
+		comb := opchildante.CombinedMinGasPrices(append(sdk.DecCoins{}, nodeDC...), decCoins(chain))
+		evals++
+		floor := [2]*big.Rat{}
+		var wantComb []string
+		for i := range c20Denoms {
+			f := ratOf(node[i])
+			if c := ratOf(chain[i]); c.Cmp(f) > 0 {
+				f = c
+			}
+			floor[i] = f
+			if f.Sign() > 0 {
+				wantComb = append(wantComb, c20Denoms[i]+"="+f.FloatString(18))
+			}
+		}
+		var gotComb []string
+		for _, dc := range comb {
+			if dc.Amount.IsPositive() {
+				gotComb = append(gotComb, dc.Denom+"="+dc.Amount.String())
+			}
+		}
+		if strings.Join(gotComb, ",") != strings.Join(wantComb, ",") || !sort.SliceIsSorted(comb, func(i, j int) bool { return comb[i].Denom < comb[j].Denom }) {
+			report(viol("combined-floor-is-pointwise-max", "CombinedMinGasPrices(node=%v, chain=%v) = %v, expected %v", node, chain, gotComb, wantComb), fmt.Sprintf("combine(node=%v,chain=%v)", node, chain))
+			return
+		}
+		allZero := floor[0].Sign() == 0 && floor[1].Sign() == 0
+		for _, gas := range gasMenu {
+			req := [2]*big.Int{}
+			for i := range c20Denoms {
+				req[i] = ceilRat(new(big.Rat).Mul(floor[i], new(big.Rat).SetInt(new(big.Int).SetUint64(gas))))
+			}
+			// fee menu: per denom {absent, req-1, req, req+1}; third denom {absent, 1}
+			amts := func(i int) []*big.Int {
+				out := []*big.Int{nil}
+				for _, d := range []int64{-1, 0, 1} {
+					v := new(big.Int).Add(req[i], big.NewInt(d))
+					if v.Sign() > 0 {
+						out = append(out, v)
+					}
+				}
+				return out
+			}
+			for _, fa := range amts(0) {
+				for _, fb := range amts(1) {
+					for _, fc := range []int64{0, 1} {
+						var fee sdk.Coins
+						if fa != nil {
+							fee = append(fee, sdk.NewCoin("uaa", math.NewIntFromBigInt(fa)))
+						}
+						if fb != nil {
+							fee = append(fee, sdk.NewCoin("ubb", math.NewIntFromBigInt(fb)))
+						}
+						if fc > 0 {
+							fee = append(fee, sdk.NewInt64Coin("ucc", fc))
+						}
+						tx := c20BuildTx(w, []sdk.Msg{msg}, fee, gas, nil, nil)
+						for _, mode := range []string{"check", "recheck", "deliver"} {
+							ctx := cctx.WithMinGasPrices(nodeDC)
+							switch mode {
+							case "check":
+								ctx = ctx.WithIsCheckTx(true)
+							case "recheck":
+								ctx = ctx.WithIsReCheckTx(true)
+							}
+							_, _, err := chk.CheckTxFeeWithMinGasPrices(ctx, tx)
+							evals++
+							admitted := err == nil
+							name := fmt.Sprintf("fee(node=%v,chain=%v,gas=%d,fee=%s,mode=%s%s)", node, chain, gas, fee, mode, tag)
+							if err != nil && !errors.Is(err, sdkerrors.ErrInsufficientFee) {
+								report(viol("fee-check-only-fails-with-insufficient-fee", "%s: %v", name, err), name)
+								continue
+							}
+							if mode == "deliver" {
+								if !admitted {
+									report(viol("nothing-enforced-outside-checking", "%s rejected outside CheckTx", name), name)
+								}
+								continue
+							}
+							ok := false // ∃ denom with positive floor whose fee ≥ ceil(gas·floor)
+							feeOf := []*big.Int{fa, fb}
+							for i := range c20Denoms {
+								if floor[i].Sign() > 0 && feeOf[i] != nil && feeOf[i].Cmp(req[i]) >= 0 {
+									ok = true
+								}
+							}
+							switch {
+							case allZero:
+								if !admitted {
+									report(viol("any-fee-passes-when-all-floors-are-zero", "%s rejected", name), name)
+								}
+							case admitted && !ok:
+								report(tagged(viol("admitted-only-above-the-floor", "%s admitted; required %s=%s %s=%s", name, c20Denoms[0], req[0], c20Denoms[1], req[1]), "dir", "soundness"), name)
+							case !admitted && ok && gas >= 1:
+								report(tagged(viol("fee-at-the-floor-in-one-denom-is-admitted", "%s rejected although one denom meets its floor (required %s=%s %s=%s)", name, c20Denoms[0], req[0], c20Denoms[1], req[1]), "dir", "definition"), name)
+							}
+							if admitted {
+								accepted++
+							} else {
+								rejected++
+							}
+						}
+					}
+				}
+			}
+		}
+	}
 	for _, ca := range chainMenu {
 		for _, cb := range chainMenu {
 			chain := [2]string{ca, cb}
@@ -105,118 +215,99 @@ func c20Fee(rc *engine.RunCtx, res *engine.Result, report func(*engine.Violation
 			for _, na := range c20NodePrices {
 				for _, nb := range c20NodePrices {
 					node := [2]string{na, nb}
-					nodeDC := decCoins(node)
-					// CombinedMinGasPrices = pointwise max, sorted
-					comb := opchildante.CombinedMinGasPrices(append(sdk.DecCoins{}, nodeDC...), decCoins(chain))
 					states++
-					evals++
-					floor := [2]*big.Rat{}
-					var wantComb []string
-					for i := range c20Denoms {
-						f := ratOf(node[i])
-						if c := ratOf(chain[i]); c.Cmp(f) > 0 {
-							f = c
-						}
-						floor[i] = f
-						if f.Sign() > 0 {
-							wantComb = append(wantComb, c20Denoms[i]+"="+f.FloatString(18))
-						}
-					}
-					var gotComb []string
-					for _, dc := range comb {
-						if dc.Amount.IsPositive() {
-							gotComb = append(gotComb, dc.Denom+"="+dc.Amount.String())
-						}
-					}
-					if strings.Join(gotComb, ",") != strings.Join(wantComb, ",") || !sort.SliceIsSorted(comb, func(i, j int) bool { return comb[i].Denom < comb[j].Denom }) {
-						report(viol("combined-floor-is-pointwise-max", "CombinedMinGasPrices(node=%v, chain=%v) = %v, expected %v", node, chain, gotComb, wantComb), fmt.Sprintf("combine(node=%v,chain=%v)", node, chain))
-						continue
-					}
-					allZero := floor[0].Sign() == 0 && floor[1].Sign() == 0
-					for _, gas := range gasMenu {
-						req := [2]*big.Int{}
-						for i := range c20Denoms {
-							req[i] = ceilRat(new(big.Rat).Mul(floor[i], new(big.Rat).SetInt(new(big.Int).SetUint64(gas))))
-						}
-						// fee menu: per denom {absent, req-1, req, req+1}; third denom {absent, 1}
-						amts := func(i int) []*big.Int {
-							out := []*big.Int{nil}
-							for _, d := range []int64{-1, 0, 1} {
-								v := new(big.Int).Add(req[i], big.NewInt(d))
-								if v.Sign() > 0 {
-									out = append(out, v)
-								}
-							}
-							return out
-						}
-						for _, fa := range amts(0) {
-							for _, fb := range amts(1) {
-								for _, fc := range []int64{0, 1} {
-									var fee sdk.Coins
-									if fa != nil {
-										fee = append(fee, sdk.NewCoin("uaa", math.NewIntFromBigInt(fa)))
-									}
-									if fb != nil {
-										fee = append(fee, sdk.NewCoin("ubb", math.NewIntFromBigInt(fb)))
-									}
-									if fc > 0 {
-										fee = append(fee, sdk.NewInt64Coin("ucc", fc))
-									}
-									tx := c20BuildTx(w, []sdk.Msg{msg}, fee, gas, nil, nil)
-									for _, mode := range []string{"check", "recheck", "deliver"} {
-										ctx := cctx.WithMinGasPrices(nodeDC)
-										switch mode {
-										case "check":
-											ctx = ctx.WithIsCheckTx(true)
-										case "recheck":
-											ctx = ctx.WithIsReCheckTx(true)
-										}
-										_, _, err := checker.CheckTxFeeWithMinGasPrices(ctx, tx)
-										evals++
-										admitted := err == nil
-										name := fmt.Sprintf("fee(node=%v,chain=%v,gas=%d,fee=%s,mode=%s)", node, chain, gas, fee, mode)
-										if err != nil && !errors.Is(err, sdkerrors.ErrInsufficientFee) {
-											report(viol("fee-check-only-fails-with-insufficient-fee", "%s: %v", name, err), name)
-											continue
-										}
-										if mode == "deliver" {
-											if !admitted {
-												report(viol("nothing-enforced-outside-checking", "%s rejected outside CheckTx", name), name)
-											}
-											continue
-										}
-										ok := false // ∃ denom with positive floor whose fee ≥ ceil(gas·floor)
-										feeOf := []*big.Int{fa, fb}
-										for i := range c20Denoms {
-											if floor[i].Sign() > 0 && feeOf[i] != nil && feeOf[i].Cmp(req[i]) >= 0 {
-												ok = true
-											}
-										}
-										switch {
-										case allZero:
-											if !admitted {
-												report(viol("any-fee-passes-when-all-floors-are-zero", "%s rejected", name), name)
-											}
-										case admitted && !ok:
-											report(tagged(viol("admitted-only-above-the-floor", "%s admitted; required %s=%s %s=%s", name, c20Denoms[0], req[0], c20Denoms[1], req[1]), "dir", "soundness"), name)
-										case !admitted && ok && gas >= 1:
-											report(tagged(viol("fee-at-the-floor-in-one-denom-is-admitted", "%s rejected although one denom meets its floor (required %s=%s %s=%s)", name, c20Denoms[0], req[0], c20Denoms[1], req[1]), "dir", "definition"), name)
-										}
-										if admitted {
-											accepted++
-										} else {
-											rejected++
-										}
-									}
-								}
-							}
-						}
-					}
+					point(checker, cctx, node, chain, gasMenu, "")
 				}
 			}
 		}
 	}
-	res.Coverage["fee_matrix"] = map[string]any{"price_vector_pairs": states, "admitted": accepted, "rejected": rejected}
+	// Histories. The checker is one object for the life of a node, and the chain's prices are a
+	// parameter that governance changes while the node runs (the node's own prices are fixed at start).
+	// For every node vector and every ordered pair A != B of chain vectors, a NEW checker serves
+	// A, then B, then A again (quick); thorough adds every A, B, C, A. Every evaluation is held to the
+	// same exact oracle, so an answer that depends on what the checker served before shows.
+	hist := int64(0)
+	setChain := func(ctx sdk.Context, chain [2]string) sdk.Context {
+		c, _ := ctx.CacheContext()
+		p, _ := w.K.GetParams(c)
+		p.MinGasPrices = decCoins(chain)
+		if err := w.K.SetParams(c, p); err != nil {
+			panic(err)
+		}
+		return c
+	}
+	var chains [][2]string
+	for _, ca := range chainMenu {
+		for _, cb := range chainMenu {
+			chains = append(chains, [2]string{ca, cb})
+		}
+	}
+	histNode := []string{"", "0.15", "1"}
+	if !rc.Thorough() {
+		histNode = []string{"", "1"}
+	}
+	for _, na := range histNode {
+		for _, nb := range histNode {
+			node := [2]string{na, nb}
+			var walk func(seq [][2]string)
+			run := func(seq [][2]string) {
+				hist++
+				chk := opchildante.NewMempoolFeeChecker(w.K)
+				ctx := w.Ctx
+				var names []string
+				for i, ch := range seq {
+					names = append(names, fmt.Sprint(ch))
+					ctx = setChain(ctx, ch)
+					tag := ""
+					if i > 0 {
+						tag = ",after-chain-prices=" + strings.Join(names[:i], "→")
+					}
+					point(chk, ctx, node, ch, []uint64{7}, tag)
+				}
+			}
+			maxLen := 3
+			if rc.Thorough() {
+				maxLen = 4
+			}
+			walk = func(seq [][2]string) {
+				if len(seq) >= 2 {
+					run(append(append([][2]string{}, seq...), seq[0])) // …and back to the first vector
+				}
+				if len(seq) == maxLen-1 {
+					return
+				}
+				for _, ch := range chains {
+					if len(seq) > 0 && ch == seq[len(seq)-1] {
+						continue
+					}
+					walk(append(seq, ch))
+				}
+			}
+			if rc.Thorough() && len(chains) > 16 {
+				// 36 chain vectors: the three-step histories are taken over the quick tier's 16
+				// (every two-step history over all 36 is still covered below)
+				all := chains
+				for _, a := range all {
+					for _, b := range all {
+						if a != b {
+							run([][2]string{a, b, a})
+						}
+					}
+				}
+				chains = nil
+				for _, ca := range []string{"", "0.000000000000000001", "0.333333333333333333", "2.5"} {
+					for _, cb := range []string{"", "0.000000000000000001", "0.333333333333333333", "2.5"} {
+						chains = append(chains, [2]string{ca, cb})
+					}
+				}
+				walk(nil)
+				chains = all
+			} else {
+				walk(nil)
+			}
+		}
+	}
+	res.Coverage["fee_matrix"] = map[string]any{"price_vector_pairs": states, "admitted": accepted, "rejected": rejected, "chain_price_histories_on_a_new_checker_each": hist}
 	res.Require(accepted > 1000 && rejected > 1000, "fee matrix is one-sided: %d admitted, %d rejected", accepted, rejected)
 	return
 }
@@ -465,7 +556,7 @@ func c20Run(rc *engine.RunCtx) *engine.Result {
 	res := engine.NewResult()
 	known := rc.Known.Matcher(rc.Property)
 	report := func(v *engine.Violation, name string) {
-		v.Path = []string{name}
+		v.Path = []string{name, "tier=" + rc.Tier} // the matrix is walked in the tier's order
 		v.Tags["search"] = "matrix"
 		if id, ok := known(v); ok {
 			res.KnownHits[id]++
@@ -513,11 +604,14 @@ func init() {
 				return engine.Replay[*c06State](&c20RedSys{}, path)
 			}
 			rc := &engine.RunCtx{Property: "C20", Tier: "thorough", Known: &engine.KnownFile{}}
+			if len(path) == 2 && path[1] == "tier=quick" {
+				rc.Tier = "quick"
+			}
 			res := engine.NewResult()
 			var found *engine.Violation
 			report := func(v *engine.Violation, name string) {
-				if found == nil && len(path) == 1 && name == path[0] {
-					v.Path = []string{name}
+				if found == nil && len(path) >= 1 && name == path[0] {
+					v.Path = append([]string{}, path...)
 					found = v
 				}
 			}
